@@ -17,7 +17,7 @@ RULE = ("conv probe, no scripted backend panics: (a) command lines of length lim
         "and invalid commands around the error threshold; (f) random walks without panic letters. non-trivial = the conversation "
         "contains an invalid, over-long or binary line; distinct = distinct case line | sched probe with `latestart` (the command loop does not wait "
         "for the delivery goroutine): the peer disconnects / QUITs / RSETs right after a BDAT command, SMTP and both LMTP modes, repeated: no recovered panic may be logged")
-THEOREMS = ["C19_short_lines_ok", "C19_long_line_trips", "C19_long_line_refused", "C19_error_threshold", "C19_tripped_ends_commands", "C19_resume_short_ok", "C19_resume_counts_pending", "C19_next_chunk_payload_not_counted"]
+THEOREMS = ["C19_short_lines_ok", "C19_long_line_trips", "C19_long_line_refused", "C19_error_threshold", "C19_tripped_ends_commands", "C19_resume_short_ok", "C19_resume_counts_pending", "C19_next_chunk_payload_not_counted", "C19_unusable_bdat_line_counted_on"]
 signature = cc.signature
 mutate = cc.mutate
 shrink = P.shrink_resegment
@@ -150,6 +150,21 @@ def _groups0(tier, rng):
                 c.add((b"LHLO" if lm else b"EHLO") + b" x\r\n", NS="ok"); c.add(b"MAIL FROM:<s@x>\r\n", MAIL="ok"); c.add(b"RCPT TO:<r@x>\r\n", RCPT="ok")
                 c.add(b"BDAT 10%s\r\n" % lastc, DATA=g.ddec(ret="prop"))
                 c.add(b"0123456789" + b"MAIL FROM:<long" + b"a" * (lim + 20) + b"@x>\r\n" + b"NOOP\r\n")
+                hist.append(c.case(seg="line") + "\tTAG=bait-only")
+                # ... and the same behind the completely buffered payload of a pipelined second chunk: the BDAT line in between ends the
+                # counting only for the octets it announces
+                c = g.Conv(dict(maxline=lim, lmtp=lm))
+                c.add((b"LHLO" if lm else b"EHLO") + b" x\r\n", NS="ok"); c.add(b"MAIL FROM:<s@x>\r\n", MAIL="ok"); c.add(b"RCPT TO:<r@x>\r\n", RCPT="ok")
+                c.add(b"BDAT 10\r\n", DATA=g.ddec(ret="prop"))
+                c.add(b"0123456789" + b"BDAT 5%s\r\nabcde" % lastc + b"MAIL FROM:<long" + b"a" * (lim + 20) + b"@x>\r\n" + b"NOOP\r\n")
+                hist.append(c.case(seg="line") + "\tTAG=bait-only")
+            # a refused chunk (no transaction) whose payload is followed by a BDAT line without a usable size and an over-long line:
+            # nothing is skipped behind such a line, the over-long line is found (ecdb2ac; 8853bc2 stopped counting at any BDAT line)
+            for bad in (b"BDAT x", b"BDAT", b"BDAT -1", b"BDAT 99999999999", b"bdat 1x LAST"):
+                c = g.Conv(dict(maxline=lim, lmtp=lm))
+                c.add((b"LHLO" if lm else b"EHLO") + b" x\r\n", NS="ok")
+                c.add(b"BDAT 1\r\n")
+                c.add(b"x" + bad + b"\r\n" + b"MAIL FROM:<long" + b"a" * (lim + 20) + b"@x>\r\n" + b"NOOP\r\n")
                 hist.append(c.case(seg="line") + "\tTAG=bait-only")
     for lim in (40, 2000):
         for total in (lim * 3, 9000):
